@@ -725,6 +725,9 @@ func (c *checker) writeEvidence(agg *kit.Stats, distinct int, shift uint, sample
 		"depth_factor":        map[string]int{"quick": 1, "thorough": 3}[c.tier],
 		"exhaustive":          false,
 	}
+	if len(c.desc.Legend) > 0 {
+		cov["legend"] = c.desc.Legend
+	}
 	if shift > 0 {
 		cov["distinct_nontrivial_note"] = fmt.Sprintf("signature sets were down-sampled by hash (1 in 2^%d) to bound memory; the count given is the exact number of distinct sampled signatures, a lower bound of the true number", shift)
 	}
